@@ -540,7 +540,8 @@ func (f *fixture) runC07(c *case07) {
 // ---------------------------------------------------------------------------- C08
 
 type op08 struct {
-	Op       string `json:"op"` // alloc | drop | realloc | rbrealloc
+	Op       string `json:"op"` // alloc | drop | readd | realloc | rbrealloc
+	W        *wres  `json:"w,omitempty"` // readd: the released workload whose resources are re-added (rollback of a release)
 	K        int    `json:"k,omitempty"`
 	Req      *reqJ  `json:"req,omitempty"`
 	Idx      []int  `json:"idx,omitempty"`
@@ -577,6 +578,9 @@ type live08 struct {
 	w   wres
 }
 
+// workloads removed by the most recent successful release (for `readd`)
+var lastDropped []wres
+
 // the next operation of a generated history, given the current live set
 func genOp08(r *hx.Rng, c nodeRes, live []live08, hist []op08, lastOK bool) op08 {
 	op := genOp08base(r, c, live, hist, lastOK)
@@ -597,6 +601,15 @@ func genOp08base(r *hx.Rng, c nodeRes, live []live08, hist []op08, lastOK bool) 
 	if last == "realloc" && lastOK && r.Chance(35) {
 		j := len(hist) - 1
 		return op08{Op: "rbrealloc", Restores: &j}
+	}
+	if last == "drop" && lastOK && len(lastDropped) > 0 && r.Chance(35) { // rollback of the release (calcium remove/dissociate)
+		w := lastDropped[r.Intn(len(lastDropped))]
+		op := op08{Op: "readd", W: &w}
+		if len(lastDropped) == 1 {
+			j := len(hist) - 1
+			op.Restores = &j
+		}
+		return op
 	}
 	if last == "alloc" && lastOK && r.Chance(20) { // roll the whole allocation back
 		k := hist[len(hist)-1].K
@@ -753,6 +766,22 @@ func (f *fixture) runC08(c *case08, next func(live []live08, hist []op08, lastOK
 			})
 			if kind == "" && err == nil {
 				live = keep
+				lastDropped = lastDropped[:0]
+				for _, p := range pick {
+					lastDropped = append(lastDropped, wresOf(p["cpumem"]))
+				}
+			}
+			undo = nil
+		case "readd":
+			raw := resourcetypes.Resources{"cpumem": op.W.raw()}
+			kind, _ = hx.Guard(60*time.Second, func() {
+				err = retry(func() error {
+					_, _, e := f.mgr2.SetNodeResourceUsage(f.ctx, name, nil, nil, []resourcetypes.Resources{raw}, true, true)
+					return e
+				})
+			})
+			if kind == "" && err == nil {
+				live = append(live, live08{raw: raw, w: *op.W})
 			}
 			undo = nil
 		case "realloc":
@@ -1007,7 +1036,9 @@ func drift(r *hx.Rng, c nodeRes, u nodeRes) nodeRes {
 		d.NM[k] = v
 	}
 	for n := r.Range(1, 3); n > 0; n-- {
-		switch r.Intn(6) {
+		switch r.Intn(7) {
+		case 6: // NUMA usage under an id that the capacity does not know (never validated)
+			d.NM[hx.Pick(r, "0", "1", "7")] += int64(r.Range(1, 500))
 		case 0:
 			d.CPU += int64(r.Range(-3, 3)) * nano / 2
 		case 1:
@@ -1040,6 +1071,9 @@ func genC15(r *hx.Rng, id string) *case15 {
 	c.Usage = sumUsage(c.WS)
 	if r.Chance(85) {
 		c.Usage = drift(r, c.Cap, c.Usage)
+	}
+	if r.Chance(6) && len(c.WS) > 0 { // a workload recorded with NUMA memory under an id unknown to the capacity
+		c.WS[r.Intn(len(c.WS))].NM["9"] += int64(r.Range(1, 100))
 	}
 	if r.Chance(8) && len(c.WS) > 0 { // workloads that do not fit the capacity
 		w := &c.WS[r.Intn(len(c.WS))]
@@ -1102,6 +1136,8 @@ type impl32 struct {
 	SetErr string           `json:"seterr"`
 	Err    string           `json:"err"`
 	Out    map[string]eng32 `json:"out"`
+	Bound  map[string]eng32 `json:"bound,omitempty"` // cluster stream: engine params held by bound workloads
+	Extra  []string         `json:"extra,omitempty"` // ids answered only by the second plugin
 }
 
 type case32 struct {
@@ -1111,11 +1147,13 @@ type case32 struct {
 	Usage nodeRes         `json:"usage"`
 	Share int             `json:"share"`
 	WS    map[string]wres `json:"ws"`
+	Multi bool            `json:"multi,omitempty"`   // Manager.Remap over two plugins (cpumem + scripted)
+	Cluster string        `json:"cluster,omitempty"` // cluster-level stream: the calcium operation that preceded
 	Impl  *impl32         `json:"impl"`
 }
 
 func genC32(r *hx.Rng, id string) *case32 {
-	c := &case32{ID: id, Prop: "C32", Share: share, WS: map[string]wres{}}
+	c := &case32{ID: id, Prop: "C32", Share: share, WS: map[string]wres{}, Multi: r.Chance(40)}
 	c.Cap = genCapacity(r, r.Chance(40))
 	ws := genWorkloads(r, c.Cap, hx.Pick(r, 0, 1, 2, 4, 6, 8))
 	c.Usage = sumUsage(ws)
@@ -1152,12 +1190,20 @@ func (f *fixture) runC32(c *case32) {
 	}
 	sort.Slice(wl, func(i, j int) bool { return wl[i].ID < wl[j].ID })
 	var out map[string]resourcetypes.Resources
-	err := retry(func() (e error) { out, e = f.mgr.Remap(f.ctx, c.ID, wl); return })
+	mgr := f.mgr
+	if c.Multi {
+		mgr = f.mgr2
+	}
+	err := retry(func() (e error) { out, e = mgr.Remap(f.ctx, c.ID, wl); return })
 	if err != nil {
 		im.Err = errClass(err)
 		return
 	}
 	for id, res := range out {
+		if _, ok := res["cpumem"]; !ok { // answered by the other plugin only
+			im.Extra = append(im.Extra, id)
+			continue
+		}
 		e := &cmtypes.EngineParams{}
 		if err := mapstructure.Decode(res["cpumem"], e); err != nil {
 			panic(err)
@@ -1168,6 +1214,7 @@ func (f *fixture) runC32(c *case32) {
 		}
 		im.Out[id] = x
 	}
+	sort.Strings(im.Extra)
 }
 
 // ---------------------------------------------------------------------------- driver
@@ -1310,6 +1357,7 @@ func TestGen(t *testing.T) {
 			f.runC32(c)
 			out.Emit(c)
 		}
+		runCluster32(t, r, out, nextID, 1+n/60) // cluster-level stream (real Calcium, fake engine)
 	default:
 		t.Fatalf("unknown VERIF_PROPERTY %q", prop)
 	}
